@@ -49,6 +49,11 @@ for pid, (text, tech) in {
 }.items():
     CLAIMED[pid] = dict(engine="codec-diff", design="DESIGN.md 5 " + pid, text=text, note=CONOTE, technique=tech)
 
+CLAIMED["C13"] = dict(engine="crash", design="DESIGN.md 5 C13",
+  text="Coq theorems (5) on the persistent-step model: every state a kill inside store_event can leave has the committed tables of before or after (never a mixture), an only-grown well-formed log (every index entry below the end marker at a whole event); removal is before-or-after; vanish passes only through whole removals; every interruption of store creation recovers to the empty store; the invariants are preserved by all later operations. Tied to the code with the verif hooks: step-list conformance of every op (append before commit, checks inside the write transaction), then a child process is _exit()ed at EVERY occurrence of EVERY named point of the last operation (and of store creation); the parent reopens, dumps everything observable, stores, queries, reopens again, and the whole observation + continuation must equal that of one of the states the model allows. PARTIAL: LMDB commit atomicity/lock recovery and page-cache behaviour on kill are assumed and observed, not proved.",
+  note="Trusted: Coq kernel; Crash.v/Db.v models; hooks (cargo feature verif, add-only commit); extraction; harness (child processes, libc::_exit); python judge. A power cut (as opposed to a process kill) is out of scope.",
+  technique="Coq proof on a persistent-step model + fault enumeration at every hook point with membership in the model's allowed set")
+
 checks = []
 for pid, c in sorted(CLAIMED.items()):
     checks.append({
